@@ -18,7 +18,7 @@ model(element, energy)     -> Model(term, rewrite, pattern, absmat, guarded, L, 
                                 guarded  True iff the code's `k1 == 0 -> 1e-12` guard is active at this point
 observe(element, energy)   -> 7x7 list of floats: the real `element.transfer_map(torch.tensor(energy, float64))`
 tolerance(m, v)            -> 7x7 floats: 2^-40*(|v_ij| + absmat_ij) + 2^-70, plus 4*guard_bound(L)*amplification at guarded points
-goals(element, energy, observed=None, per_entry=False)
+goals(element, energy, observed=None, per_entry=False, und_fixed=None)
                            -> (goal_list, meta) where goal_list = [(statement, tactic), ...] ready for common.run_real_goals and
                               meta[k] = {"kind": "exact"|"num", "entries": [(i, j), ...]} for goal k.  One "exact" goal covers all
                               structural entries (after checking in Python that the observed values are exactly 0.0 / 1.0);
@@ -27,6 +27,11 @@ goals(element, energy, observed=None, per_entry=False)
                               Non-zero parameters are universally quantified variables pinned by `lit <= p <= lit` (small terms).
                               Raises BrokenCorrespondence for non-finite outputs or a structural entry that is not exactly 0/1.
 helpers: lit(x) exact real literal; entry(term, i, j); rel(E) -> (gamma, igamma2, beta) floats; guard_bound(L).
+Undulator (finding F3): Maps.v holds two transcriptions, `und_map` (R56 = +L igamma2, the code before the repair) and
+`und_map_fixed` (R56 = -L/beta^2 igamma2, the repaired code = drift_map).  Which one is the faithful model is decided by the
+status of F3 in known_findings.json: f3_known(pid) -> True while F3 is listed `known` for that property (model `und_map`);
+once it is flipped to `fixed` the model is `und_map_fixed`.  set_undulator_variant(fixed) sets the default for model()/goals();
+both take und_fixed=True/False to evaluate the other variant (used to tell "stale status" from "new defect").
 Coq side: Optics/Entries.v (closed-form sparse entry lemmas rotconj/shiftconj/edgeconj + *_eq selection lemmas, proved for all
 parameters) and Optics/EntryTac.v (tactics c02_exact / c02_num).  Build them with common.coq_build("theories/Optics/EntryTac.vo").
 
@@ -44,8 +49,9 @@ import common
 
 PREAMBLE = """From Coq Require Import Reals Lra.
 From Interval Require Import Tactic.
-From Cheetah Require Import Base.Mat Optics.Maps Optics.CS Optics.Entries Optics.EntryTac.
+From Cheetah Require Import Base.Mat Optics.Maps Optics.CS Optics.Entries Optics.EntryTac Optics.UndFixed.
 Open Scope R_scope."""
+COQ_TARGETS = ("theories/Optics/EntryTac.vo", "theories/Optics/UndFixed.vo")     # what the generated goals load
 
 M_E_IN_MAPS_V = 510998.95069          # the literal `m_e` of Optics/Maps.v
 SUPPORTED = ("Drift", "Quadrupole", "Dipole", "RBend", "Solenoid", "HorizontalCorrector", "VerticalCorrector", "Undulator",
@@ -56,6 +62,33 @@ GUARDED_CLASSES = ("Quadrupole", "Dipole", "RBend", "Cavity")
 
 class BrokenCorrespondence(Exception):
     pass
+
+
+# ------------------------------------------------------------------ finding F3: which Undulator transcription is the faithful one
+UND_FIXED = False        # default variant used by model()/goals(); set by the check from the status of F3
+
+
+def finding_status(pid, fid):
+    """'known' / 'fixed' / None (not listed) for finding `fid` of property `pid` in known_findings.json"""
+    st = [f.get("status") for f in common.load_known_findings(pid) if f.get("id") == fid]
+    if "known" in st:
+        return "known"
+    return st[0] if st else None
+
+
+def f3_known(pid):
+    """True while F3 (Undulator R56) is listed with status `known` for `pid`: the code before the repair is the model"""
+    return finding_status(pid, "F3") == "known"
+
+
+def set_undulator_variant(fixed: bool):
+    global UND_FIXED
+    UND_FIXED = bool(fixed)
+
+
+def undulator_variant_name(fixed=None):
+    fixed = UND_FIXED if fixed is None else fixed
+    return "und_map_fixed (code after the repair of F3; = drift_map)" if fixed else "und_map (code before the repair of F3: R56 = +L igamma2)"
 
 
 def assert_constants():
@@ -263,19 +296,19 @@ def _nz(name_vals):
     return "(left; lra)" if mx != 0 else "(right; lra)"
 
 
-def model(e, energy):
+def model(e, energy, und_fixed=None):
     p = params(e)
     cls = p["cls"]
     E = float(energy)
     if not (E > M_E_IN_MAPS_V):
         raise BrokenCorrespondence("reference energy at or below the rest energy is an unspecified region")
     env = _Env()
-    m = _model(p, cls, E, env)
+    m = _model(p, cls, E, env, UND_FIXED if und_fixed is None else bool(und_fixed))
     m.binders = env.binders
     return m
 
 
-def _model(p, cls, E, lit):
+def _model(p, cls, E, lit, und_fixed=False):
     lE = lit("E", E)
     if cls in IDENTITY_CLASSES:
         return Model(cls, "identity_map", "", _pid(), _aid(), False, 0.0)
@@ -285,6 +318,9 @@ def _model(p, cls, E, lit):
         P, A = _drift_like(L, E)
         return Model(cls, f"(drift_map {lL} {lE})", "", P, A, False, L)
     if cls == "Undulator":
+        if und_fixed:     # repaired code: literally the drift formula; the goal is rewritten to drift_map (UndFixed.v)
+            P, A = _drift_like(L, E)
+            return Model(cls, f"(und_map_fixed {lL} {lE})", "rewrite und_map_fixed_is_drift.", P, A, False, L)
         P, A = _drift_like(L, E, plus=True)
         return Model(cls, f"(und_map {lL} {lE})", "", P, A, False, L)
     if cls in ("HorizontalCorrector", "VerticalCorrector"):
@@ -403,8 +439,8 @@ def tolerance(m, v):
     return tol
 
 
-def goals(e, energy, observed=None, per_entry=False):
-    m = model(e, energy)
+def goals(e, energy, observed=None, per_entry=False, und_fixed=None):
+    m = model(e, energy, und_fixed)
     v = observed if observed is not None else observe(e, energy)
     for i in range(7):
         for j in range(7):
